@@ -88,7 +88,7 @@ def build(U):
     U.ghost("impl<N> FromSpecImpl<N> for Positive<N> { open spec fn obeys_from_spec() -> bool { true } open spec fn from_spec(content: N) -> Self { Self { content } } }", 'From spec')
     U.emit(U.impl(F, 'From<N> for Positive<N>').drop_attrs(), under_contract=False)
     im = U.impl(F, "TypedNode<'i, R> for Positive<N>").drop_attrs()
-    im.prepend_in_block("    open spec fn sem(c: Ctx<'i>, pos: nat, st: Seq<Span<'i>>) -> Res<'i> { sem_positive::<R, N>(c, pos, st) }")
+    im.prepend_in_block(P.semdef("sem_positive::<R, N>(c, pos, st)", "match N::sem(c, pos, st) { Some((p, _)) => N::node_ok(c, pos, st, p, n.content), None => false }"))
     P.hints(im)
     U.emit(im)
 
@@ -96,7 +96,7 @@ def build(U):
     U.ghost("impl<T> FromSpecImpl<()> for Negative<T> { open spec fn obeys_from_spec() -> bool { false } open spec fn from_spec(_value: ()) -> Self { arbitrary() } }", 'From spec')
     U.emit(U.impl(F, 'From<()> for Negative<T>').drop_attrs(), under_contract=False)
     im = U.impl(F, "TypedNode<'i, R> for Negative<T>").drop_attrs()
-    im.prepend_in_block("    open spec fn sem(c: Ctx<'i>, pos: nat, st: Seq<Span<'i>>) -> Res<'i> { sem_negative::<R, T>(c, pos, st) }")
+    im.prepend_in_block(P.semdef("sem_negative::<R, T>(c, pos, st)"))
     P.hints(im)
     U.emit(im)
 
@@ -105,14 +105,14 @@ def build(U):
     U.ghost("impl<T> FromSpecImpl<T> for Push<T> { open spec fn obeys_from_spec() -> bool { true } open spec fn from_spec(content: T) -> Self { Self { content } } }", 'From spec')
     U.emit(U.impl(F, 'From<T> for Push<T>').drop_attrs(), under_contract=False)
     im = U.impl(F, "TypedNode<'i, R> for Push<T>").drop_attrs()
-    im.prepend_in_block("    open spec fn sem(c: Ctx<'i>, pos: nat, st: Seq<Span<'i>>) -> Res<'i> { sem_push::<R, T>(c, pos, st) }")
+    im.prepend_in_block(P.semdef("sem_push::<R, T>(c, pos, st)", "T::node_ok(c, pos, st, end, n.content)"))
     P.hints(im)
     U.emit(im)
 
     # ---- DROP / POP / PEEK -----------------------------------------------------------------------------
     struct(U, 'DROP')
     im = U.impl(F, "TypedNode<'i, R> for DROP").drop_attrs()
-    im.prepend_in_block("    open spec fn sem(c: Ctx<'i>, pos: nat, st: Seq<Span<'i>>) -> Res<'i> { sem_drop(c, pos, st) }")
+    im.prepend_in_block(P.semdef("sem_drop(c, pos, st)"))
     P.hints(im)
     U.emit(im)
 
@@ -120,7 +120,7 @@ def build(U):
     U.ghost("impl<'i> FromSpecImpl<Span<'i>> for POP<'i> { open spec fn obeys_from_spec() -> bool { true } open spec fn from_spec(span: Span<'i>) -> Self { Self { span } } }", 'From spec')
     U.emit(U.impl(F, "From<Span<'i>> for POP<'i>").drop_attrs(), under_contract=False)
     im = U.impl(F, "TypedNode<'i, R> for POP<'i>").drop_attrs()
-    im.prepend_in_block("    open spec fn sem(c: Ctx<'i>, pos: nat, st: Seq<Span<'i>>) -> Res<'i> { sem_pop(c, pos, st) }")
+    im.prepend_in_block(P.semdef("sem_pop(c, pos, st)", "st.len() > 0 && n.span == st.last()"))
     P.hints(im)
     U.emit(im)
 
@@ -128,18 +128,18 @@ def build(U):
     U.ghost("impl<'i> FromSpecImpl<Span<'i>> for PEEK<'i> { open spec fn obeys_from_spec() -> bool { true } open spec fn from_spec(span: Span<'i>) -> Self { Self { span } } }", 'From spec')
     U.emit(U.impl(F, "From<Span<'i>> for PEEK<'i>").drop_attrs(), under_contract=False)
     im = U.impl(F, "TypedNode<'i, R> for PEEK<'i>").drop_attrs()
-    im.prepend_in_block("    open spec fn sem(c: Ctx<'i>, pos: nat, st: Seq<Span<'i>>) -> Res<'i> { sem_peek(c, pos, st) }")
+    im.prepend_in_block(P.semdef("sem_peek(c, pos, st)", "n.span == (Span { input: c.input, start: pos as usize, end: end as usize })"))
     P.hints(im)
     U.emit(im)
 
     # ---- SOI / EOI ---------------------------------------------------------------------------------------
     struct(U, 'SOI')
     im = U.impl(F, "TypedNode<'i, R> for SOI").drop_attrs()
-    im.prepend_in_block("    open spec fn sem(c: Ctx<'i>, pos: nat, st: Seq<Span<'i>>) -> Res<'i> { sem_soi(c, pos, st) }")
+    im.prepend_in_block(P.semdef("sem_soi(c, pos, st)"))
     P.hints(im)
     U.emit(im)
     struct(U, 'EOI')
     im = U.impl(F, "TypedNode<'i, R> for EOI").drop_attrs()
-    im.prepend_in_block("    open spec fn sem(c: Ctx<'i>, pos: nat, st: Seq<Span<'i>>) -> Res<'i> { sem_eoi(c, pos, st) }")
+    im.prepend_in_block(P.semdef("sem_eoi(c, pos, st)"))
     P.hints(im)
     U.emit(im)
